@@ -35,6 +35,12 @@ def run(ctx):
     nom = [gb2.gen_file(rng, 3000, marker=False) for _ in range(10 if ctx.quick else 300)]
     ctx.correspond([f"bf2.import 1 {hx(t.encode())}" for t, _ in nom] + [f"bf2.import 0 {hx(t.encode())}" for t, _ in nom], "bf2.import-legacy")
     ctx.check_props([f"prop.c13reject {hx(t.encode())} no-Bf3Update-marker" for t, _ in nom], "prop.c13reject-legacy")
+    # whole files in which one blob section starts at a non-zero address or has a gap: rejected, not converted
+    bad = [gb2.gen_file(rng, 3000, defect=True) for _ in range(30 if ctx.quick else 600)]
+    ctx.correspond([f"bf2.import 1 {hx(t.encode())}" for t, _ in bad], "bf2.import-defect")
+    ctx.check_props([f"prop.c13reject {hx(t.encode())} blob-with-gap-or-nonzero-start" for t, e in bad if e is None],
+                    "prop.c13reject-defect")
+    ctx.check_props([f"prop.c13 {hx(t.encode())} {spec_of(e)}" for t, e in bad if e is not None], "prop.c13")
     # single sections: conversion per format, gaps at every position class, non-zero start
     conv, props = [], []
     for _ in range(60 if ctx.quick else 4000):
